@@ -1,7 +1,7 @@
 use mmsim::sut::*;
 fn main() {
     let src = std::fs::read_to_string(std::env::args().nth(1).unwrap()).unwrap();
-    let opts = SutOptions { with_scheduler: true, sample_rate: 48000, self_init_0: false };
+    let opts = SutOptions { with_scheduler: true, sample_rate: 48000, self_init_0: false, with_sampler: std::env::var("WITH_SAMPLER").is_ok() };
     let mut s = Sut::start(Backend::Vm, &src, None, &opts, RetireMode::Present).unwrap();
     {
         let vm = &s.vm().unwrap().vm;
